@@ -8,7 +8,7 @@
    delivery of ANY packet ever queued by one endpoint to the other at any time, any number of times (send queues
    are never drained in the model: loss = never delivered, duplication, delay and reordering are all covered).
    Window: 0 <= max_prediction < 2^30 (eps_window_ok), in particular 0 and 1.  Codec: C14 (CodecProofs.codec_roundtrip). *)
-From GGRS Require Import Base Consts TimeSync Codec Endpoint EndpointSpec EndpointProofs EndpointSafety EndpointLink.
+From GGRS Require Import Base Consts TimeSync Codec Endpoint EndpointSpec EndpointProofs EndpointSafety EndpointLink EndpointEvents.
 Open Scope Z_scope.
 
 (* (a) re-ack (b2421d6, first half): for EVERY receiver state, an Input packet whose base frame start_frame - 1 is not
@@ -231,3 +231,32 @@ Check C05_exchange_reaches_newest : forall dbg nh f0 S R sent cs t1 t2 t3,
   epl_inv nh f0 S R sent -> epl_compat S R cs -> u_pending_output S <> [] ->
   exists S1 R2, epl_exchange dbg t1 t2 t3 cs S R = Ok (S1, R2) /\
     last_recv_frame R2 = f0 + Z.of_nat (length sent) - 1.
+
+(* (e) "with the input stream intact", at the level the session sees it (EndpointEvents.v).  [ev_justified nh hs sent e]:
+   an Input event (frame k, value v, player h) names a frame the sender was handed - (k, b) is in [sent] - and v is the
+   a-th value of that frame's bytes b, h the a-th player handle of the receiver ([hs] = the sender's local players, in
+   order).  [epl_events_ok]: every Input event waiting in the receiver's event queue is justified.
+   The invariant is preserved by every step of the link - whatever is lost, duplicated, delayed or reordered, through
+   the delta/RLE codec, acknowledgements, re-acknowledgements and retransmissions - and a poll hands the session
+   nothing else: no Input event is ever made up, altered, attributed to another player or given another frame.
+   (Each frame is reported at most once and in increasing order: C08_accept_loop_sizes - new events lie above
+   last_recv_frame, which they raise.) *)
+Theorem C05_events_were_sent_step : forall dbg nh f0 hs S R sent S' R' sent',
+  epl_inv nh f0 S R sent -> epl_events_ok nh hs R sent -> epl_step dbg nh f0 (S, R, sent) (S', R', sent') ->
+  epl_events_ok nh hs R' sent'.
+Proof. exact epl_events_step. Qed.
+
+Theorem C05_events_were_sent : forall dbg nh f0 hs x y, epl_steps dbg nh f0 x y ->
+  epl_inv nh f0 (fst (fst x)) (snd (fst x)) (snd x) -> epl_events_ok nh hs (snd (fst x)) (snd x) ->
+  epl_events_ok nh hs (snd (fst y)) (snd y).
+Proof. exact epl_events_steps. Qed.
+
+Theorem C05_poll_hands_out_what_was_sent : forall dbg nh hs R sent now nonce cs R' out,
+  epl_events_ok nh hs R sent -> step dbg (OPoll now nonce cs) R = Ok (R', out) ->
+  forall k v h, In (EvInput k v h) out -> ev_justified nh hs sent (EvInput k v h).
+Proof. exact epl_poll_hands_out_justified. Qed.
+
+(* it holds when nothing has been received yet *)
+Theorem C05_events_ok_initial : forall nh hs R, u_handles R = hs ->
+  (forall k v h, ~ In (EvInput k v h) (u_event_queue R)) -> epl_events_ok nh hs R [].
+Proof. exact epl_events_ok_initial. Qed.
